@@ -137,6 +137,8 @@ func EncodePacket(b *[]byte, pkt *Packet) {
 	*b = (*b)[:pos]
 }
 
+var errUnexpectedExtHdrLength = errors.New("unexpected extension header length")
+
 // DecodePacket decodes a byte slice to a Packet. Authentication is not
 // checked, but an error is returned if b does not contain an
 // Autheticator or UniqueID extension field.
@@ -148,6 +150,11 @@ func DecodePacket(pkt *Packet, b []byte) (err error) {
 	for len(b)-pos >= 28 && !foundAuthenticator {
 		var eh extHdr
 		eh.unpack(b, pos)
+		if eh.Length < 4 {
+			// Length includes the 4-byte header: a smaller value would
+			// stop the walk from advancing (or make it run backwards).
+			return errUnexpectedExtHdrLength
+		}
 		pos += 4
 
 		switch eh.Type {
@@ -228,6 +235,9 @@ func (pkt *Packet) authenticate(b []byte, key []byte) error {
 	for len(decrytedBuf)-pos >= 28 {
 		var eh extHdr
 		eh.unpack(decrytedBuf, pos)
+		if eh.Length < 4 {
+			return errUnexpectedExtHdrLength
+		}
 		pos += 4
 
 		switch eh.Type {
